@@ -285,7 +285,7 @@ def cases():
     out = []
     k = 0
     for i, m in enumerate(c17_meshes()):
-        for ghost in ((1, 2, 3) if tier != 'quick' else ((i % 3) + 1, ((i + 1) % 3) + 1)):
+        for ghost in ((1, 2, 3, 4) if tier != 'quick' else ((i % 3) + 1, ((i + 1) % 3) + 1)):
             layouts = {sub: families.scatter_layouts(m, rnd, max_files=2) for sub in ('state', 'gradp', 'I_R', 'divU', 'p')}
             out.append({'label': '%s/g%d' % (m.name, ghost), 'mesh': m, 'ghost': ghost, 'layouts': layouts, 'geom': (i + ghost) % 3,
                         'int_line': (i + ghost) % 2 == 0, 'k': k})
